@@ -8,7 +8,9 @@
  * args: seed=<n> progs=<n> maxth=<n> depth=<n> fan=<n> minstack=<bytes>
  *       nw=<workers> yields=<0|1> (threads also yield with all options: C02)
  */
+#ifndef _GNU_SOURCE
 #define _GNU_SOURCE
+#endif
 #include <stdio.h>
 #include <stdlib.h>
 #include <string.h>
